@@ -66,6 +66,9 @@ def run(ctx):
     only = [f for f in os.environ.get("VERIF_C29_FAMILIES", "").split(",") if f]
     fams = [f for f in FAMILIES if not only or f in only]
     for fam in fams:
+        # deep fork-choice scenarios (TwoBranch): shorter heavier fork takes over, longer fork overtakes again; every router
+        # has its own copy of addHeader
+        plan.append((fam, "R", {"clique": "C", "bor": "P"}.get(fam, "F")))
         if fam == "clique":
             plan.append((fam, "C4" if q else "C5", "C"))
             if not q:
@@ -103,7 +106,7 @@ def run(ctx):
             results = list(ex.map(generate, group))
         for (kind, fam, g, c), items in zip(group, results):
             if kind == "edges":
-                if len(items) < 500:
+                if len(items) < (150 if g == "R" else 500):
                     ctx.fail("too few edges from PoSA_%s_%s_gen.cfg: %d" % (fam, g, len(items)))
                 ctx.sample({"family": fam, "cfg": g, "edge": items[len(items) // 3]["e"]})
                 for router in FAMILIES[fam]:
